@@ -38,6 +38,18 @@ def violated(key, what, expected=None, observed=None, run=None, extra=None, coun
             'sets': sets or {}, 'sample': None, 'violation': v}
 
 
+def transitions(trace):
+    """Coverage meter from hook 1: the set of (previous state kind -> state kind) pairs of the line state machine."""
+    out = set()
+    prev = 'Start'
+    for l in trace or []:
+        if l.startswith('line ') or l.startswith('end '):
+            k = l.split()[1]
+            out.add('%s>%s' % (prev, k if l.startswith('line ') else 'End'))
+            prev = k
+    return sorted(out)
+
+
 def describe_run(res):
     d = {'args': res.args, 'env': res.env, 'mode': res.mode, 'pty_size': list(res.pty_size),
          'rc': res.rc, 'signal': res.signal, 'timed_out': res.timed_out,
